@@ -9,6 +9,7 @@ C11 driver.  One line = one fault script of a server batch plus what the real
            `stoppedOK`, forwarded = `expectForwarded`, side-band = last `expectRecords` per name.
 -/
 import ConfModel.Driver.Common
+import ConfModel.Driver.OSCmd
 import ConfModel.Spec.ServerRunner
 namespace ConfModel.Driver.C11
 open Lean ConfModel.Driver ConfModel.ServerRunner
@@ -45,6 +46,7 @@ def pairs (j : Json) : List (String × String) :=
 
 def handle : Handler := fun op inp impl =>
   match op with
+  | "oscmd" => ConfModel.Driver.OSCmd.judgeServer inp impl
   | "batch" =>
     let names := strList (field inp "names")
     let n := names.length
